@@ -585,6 +585,92 @@ def w7(rep, f_foam):
                       "the loop over the three examined values no longer compares each with MAX_BYTE (255)")
 
 
+def _origin(fn_scope, var_did):
+    """how a local integer gets its value: ('call', f) for v = f(...), ('out', f, k) when &v is argument k of f,
+    ('member', m) for v = x->m"""
+    outs = set()
+    for y in walk(fn_scope):
+        src = None
+        if y["k"] == "BinaryOperator" and y["op"] == "=" and strip(y["c"][0]) is not None and strip(y["c"][0]).get("did") == var_did:
+            src = strip(y["c"][1])
+        for d in (y.get("decls", []) if y["k"] == "DeclStmt" else []):
+            if d.get("did") == var_did and d.get("init") is not None:
+                src = strip(d["init"])
+        if src is not None:
+            if src["k"] == "CallExpr":
+                outs.add(("call", src.get("callee")))
+            elif src["k"] == "MemberExpr":
+                outs.add(("member", src.get("n")))
+            else:
+                outs.add(("expr", render(src)[:40]))
+        if y["k"] == "CallExpr":
+            for k, a in enumerate(y["c"][1:]):
+                a = strip(a)
+                if a is not None and a["k"] == "UnaryOperator" and a["op"] == "&" and strip(a["c"][0]) is not None \
+                        and strip(a["c"][0]).get("did") == var_did:
+                    outs.add(("out", y.get("callee"), k))
+    return outs
+
+
+def w8(rep, f_foam):
+    """The length whose size selects the format of a node is the length the encoder then writes in that format."""
+    wfn = f_foam.func(WRITER)
+    gs, _ = letter_groups(wfn)
+    writer = {}
+    for letter in ("s", "n"):
+        g = gs.get(letter)
+        if g is None:
+            raise AnalysisBroken("%s: no case for letter %s" % (WRITER, letter))
+        meas = set()
+        for st in g["stmts"]:
+            for y in walk(st):
+                if y.get("mac") == "FOAM_PUT_INT" and y["k"] == "CallExpr" and y.get("callee") in ("bufPutSInt", "bufPutByte", "bufAdd1"):
+                    v = strip(y["c"][-1])
+                    if v is not None and v["k"] == "DeclRefExpr":
+                        for st2 in g["stmts"]:
+                            meas |= _origin(st2, v.get("did"))
+        if not meas:
+            raise AnalysisBroken("%s case '%s': the length written with FOAM_PUT_INT(format, ...) was not found" % (WRITER, letter))
+        writer[letter] = meas
+    cfn = f_foam.func("foamTagFormat")
+    # branches `tag == FOAM_T` that assign si
+    chooser = {}
+    for x in walk(cfn["body"]):
+        if x["k"] != "IfStmt":
+            continue
+        tags = [common.enum_name(b["c"][1]) for b in walk(x["c"][0])
+                if b["k"] == "BinaryOperator" and b["op"] == "==" and strip(b["c"][0]) is not None and strip(b["c"][0]).get("n") == "tag"]
+        tags = [t for t in tags if t]
+        if not tags or x["c"][1] is None:
+            continue
+        meas = set()
+        for y in walk(x["c"][1]):
+            if y["k"] == "IfStmt":
+                break
+            if y["k"] == "BinaryOperator" and y["op"] == "=" and strip(y["c"][0]) is not None and strip(y["c"][0]).get("n") == "si":
+                r = strip(y["c"][1])
+                if r["k"] == "CallExpr":
+                    meas.add(("call", r.get("callee")))
+                elif r["k"] == "MemberExpr":
+                    meas.add(("member", r.get("n")))
+                elif r["k"] == "DeclRefExpr":
+                    meas |= _origin(x["c"][1], r.get("did"))
+        for t in tags:
+            chooser.setdefault(t, set()).update(meas)
+    want = {"FOAM_Unimp": "s", "FOAM_Decl": "s", "FOAM_GDecl": "s", "FOAM_BInt": "n"}
+    for t, letter in sorted(want.items()):
+        key = "length-measure:%s" % t
+        if t not in chooser or not chooser[t]:
+            raise AnalysisBroken("foamTagFormat: branch for %s (assignment to si) not found" % t)
+        if chooser[t] & writer[letter]:
+            rep.ok("W8", key, sample={"tag": t, "measure": sorted(map(str, chooser[t] & writer[letter]))})
+        else:
+            rep.violation("W8", key, "foam.c (foamTagFormat / %s case '%s')" % (WRITER, letter),
+                          "the format of a %s node is chosen from %s, but the encoder then writes, in that format, a length obtained from "
+                          "%s: when the two differ the length is truncated to one byte and the saved unit cannot be read back"
+                          % (t, sorted(map(str, chooser[t])), sorted(map(str, writer[letter]))))
+
+
 WALKERS = ["foamEqual", "foamHash", "foamCopy", "foamFree", "foamToSExpr", "foamFrSExpr", "foamAuditAll", "foamCopyNode"]
 
 
@@ -970,6 +1056,7 @@ def run(tier, only=None):
     w4b(rep, f_foam)
     w5(rep, f_foam, alphabet)
     w7(rep, f_foam)
+    w8(rep, f_foam)
     f_sefo = common.extract("sefo.c", all_trees=True)
     w6(rep, f_sefo, widths)
     rep.assumptions += ["W7: for Lex/RElt/RRElt/EElt/IRElt/TRElt nodes the letter i of argf marks exactly the fields written with the "
